@@ -239,51 +239,64 @@ def run(ctx):
     ctx.floor("R06.4", "estimator invocations in the sampler", n_est, 1)
 
     # ---- R06.5 sampler discipline ------------------------------------------------------------------------
-    n_push = 0
-    for n, f in F.fns.items():
-        pushes = f.calls_to("std::collections::BinaryHeap::<T, A>::push")
-        if not pushes or "MinHeapSamples" not in f.rec.get("self_ty", ""):
-            continue
-        ctx.touch(f)
-        for pb, pt in pushes:
-            n_push += 1
-            inserts = [(b, t) for b, t in f.calls_to("std::collections::HashSet::<T, S, A>::insert")]
-            okp = any(f.block_dominates(b, pb) or f.must_pass([pb], [b]) for b, t in inserts)
-            ctx.check(okp, "R06.5", "%s|push-paired-with-id-insert" % n, "every key pushed into the sample is recorded in the sample's id set", f.where(pb))
-            heads = back_edge_heads(f)
-            in_loop = any(pb in f.reach_after(h) and h in f.reach_after(pb) for h in heads)
-            refill = any(t["callee"].endswith("HashSet::<T, S, A>::contains") for b, t in f.calls())
-            if refill:
-                guards = []
-                for b, expr, tt, ft in bool_branches(f):
-                    if expr[0] == "call" and expr[1].endswith("HashSet::<T, S, A>::contains"):
-                        guards.append((b, ft))
-                ctx.check(bool(guards) and all(f.edge_dominates(e, pb) for e in guards), "R06.5", "%s|no-duplicate-in-sample" % n,
-                          "on refill a key is pushed only if its id is not already in the sample", f.where(pb))
-            # bounded by the sample size
-            bounded = False
-            for b, expr, tt, ft in bool_branches(f):
-                if expr[0] == "binop" and expr[1] in ("Lt", "Le") and (mentions(expr, lambda s: s[0] == "field" and s[2] == "sample_size") or mentions(expr, lambda s: s == ("param", 2))):
-                    bounded = True
-            ctx.check(bounded, "R06.5", "%s|bounded-by-sample-size" % n, "sampling is bounded by the configured sample size", f.where())
-    ctx.floor("R06.5", "sample push sites", n_push, 1)
-    # refill gives up only when the sample is full again or the source has no more keys to offer: any other early exit
-    # (e.g. a shortcut on the size of the source) can leave an evictable key unsampled and a fitting put refused
+    # judged on the paths of the sampler's own functions with its private helpers inlined (a per-key `include(pair)` helper is
+    # part of the refill loop)
     from core import lt_truth
-    n_refill = 0
+    n_push = n_refill = 0
+    is_push = lambda e: e.generic.endswith("BinaryHeap::<T, A>::push")
+    is_ins = lambda e: e.generic.endswith("HashSet::<T, S, A>::insert")
+    is_has = lambda e: e.generic.endswith("HashSet::<T, S, A>::contains")
+    samp = {}
     for n, f in F.fns.items():
-        if f.kind == "Closure" or "MinHeapSamples" not in f.rec.get("self_ty", "") or not f.calls_to("HashSet::<T, S, A>::contains") or not f.calls_to("BinaryHeap::<T, A>::push"):
+        if f.kind == "Closure" or "MinHeapSamples" not in f.rec.get("self_ty", ""):
             continue
-        n_refill += 1
-        bad = []
-        for sp in ipaths(F, f, stop=lambda x: True, depth=1):
-            full = [lt_truth(a, lambda z: is_call_to(z, "BinaryHeap::<T, A>::len"), lambda z: z[0] == "field" and z[2] == "sample_size") for a in sp.atoms]
-            exhausted = [a for a in sp.atoms if a[0] == "enum" and is_call_to(a[1], "::next") and a[2] == ("None",)]
-            if not any(x is False for x in full) and not exhausted:
-                bad.append(sp)
-        ctx.check(not bad, "R06.5", "%s|refill-stops-only-when-full-or-exhausted" % n,
-                  "the refill returns only after the sample is full again (sample.len() >= sample_size) or the source iterator is exhausted", f.where(),
-                  "; ".join(q.show() for q in bad[:2]))
+        own_ = (f.rec.get("self_ty") or "").split("<")[0]
+        ps = ipaths(F, f, stop=lambda x: not (x in F.fns and (F.fns[x].rec.get("self_ty") or "").split("<")[0] == own_), depth=2)
+        if any(any(is_push(e) for e in p.events) for p in ps):
+            samp[n] = (f, ps)
+    outer_s = [n for n in samp if not any(t.get("rpath") == n for m in samp if m != n for b, t in samp[m][0].calls())]
+    for n in sorted(outer_s):
+        f, ps = samp[n]
+        ctx.touch(f)
+        n_push += 1
+        bad_pair, bad_dup, bad_stop = [], [], []
+        refill = any(any(is_has(e) for e in p.events) for p in ps)
+        bounded = False
+        for p in ps:
+            pushes = [e for e in p.events if is_push(e)]
+            inserts = [e for e in p.events if is_ins(e)]
+            if len(pushes) != len(inserts):
+                bad_pair.append(p)
+            for a in p.atoms:
+                if a[0] == "bool" and a[1][0] == "binop" and a[1][1] in ("Lt", "Le") and (mentions(a[1], lambda s_: s_[0] == "field" and s_[2] == "sample_size") or mentions(a[1], lambda s_: s_ == ("param", 2))):
+                    bounded = True
+            if refill:
+                for e in pushes:
+                    tested = [a for a in p.atoms if a[0] == "bool" and is_call_to(a[1], "HashSet::<T, S, A>::contains") and a[4] < e.seq]
+                    if not tested or tested[-1][2]:
+                        bad_dup.append(p)
+                full = [lt_truth(a, lambda z: is_call_to(z, "BinaryHeap::<T, A>::len"), lambda z: z[0] == "field" and z[2] == "sample_size") for a in p.atoms]
+                exhausted = [a for a in p.atoms if a[0] == "enum" and is_call_to(a[1], "::next") and a[2] == ("None",)]
+                if not any(x is False for x in full) and not exhausted:
+                    bad_stop.append(p)
+        ctx.check(not bad_pair, "R06.5", "%s|push-paired-with-id-insert" % n, "every key pushed into the sample is recorded in the sample's id set", f.where(), "; ".join(q.show() for q in bad_pair[:2]))
+        if refill:
+            n_refill += 1
+            # where the push is written in the refill function itself, dominance speaks about every iteration (the paths
+            # above run the loop body at most once): the push must lie under the false edge of the membership test
+            dom_bad = []
+            own_pushes = [b for b, t in f.calls() if t["callee"].endswith("BinaryHeap::<T, A>::push")]
+            guards = [(b, ft) for b, expr, tt, ft in bool_branches(f) if expr[0] == "call" and expr[1].endswith("HashSet::<T, S, A>::contains")]
+            for pb in own_pushes:
+                if not guards or not all(f.edge_dominates(e_, pb) for e_ in guards):
+                    dom_bad.append(f.where(pb))
+            ctx.check(not bad_dup and not dom_bad, "R06.5", "%s|no-duplicate-in-sample" % n, "on refill a key is pushed only if its id is not already in the sample", f.where(),
+                      "; ".join([q.show() for q in bad_dup[:2]] + dom_bad[:2]))
+            ctx.check(not bad_stop, "R06.5", "%s|refill-stops-only-when-full-or-exhausted" % n,
+                      "the refill returns only after the sample is full again (sample.len() >= sample_size) or the source iterator is exhausted", f.where(),
+                      "; ".join(q.show() for q in bad_stop[:2]))
+        ctx.check(bounded, "R06.5", "%s|bounded-by-sample-size" % n, "sampling is bounded by the configured sample size", f.where())
+    ctx.floor("R06.5", "sample push sites", n_push, 1)
     ctx.floor("R06.5", "sample refill functions", n_refill, 1)
     for pn in sorted(pop_fns):
         g = F.fn(pn)
